@@ -2919,7 +2919,9 @@ SKIP_HSHEADER_PARSE:
         }
         else if (ssl->sid->sessionTicket == NULL || ssl->sid->sessionTicketLen == 0)
         {
-            /* First time receiving a session ticket */
+            /* First time receiving a session ticket (or the one held is
+               empty: an empty ticket still owns an allocation) */
+            psFree(ssl->sid->sessionTicket, ssl->sid->pool);
             ssl->sid->sessionTicketLen = hsLen;
             /* This client has a dedicated SessionId pool to draw from. */
             if ((ssl->sid->sessionTicket = psMalloc(ssl->sid->pool,
